@@ -97,8 +97,13 @@ def run_update_params(case):
                             q = (lambda i, w0=w0, d0=d0: z3.Select(w0, i) + z3.Select(d0, i)) if mode == "params" else (lambda i, d0=d0: z3.Select(d0, i))
                             bufs[b].cell.set(lam(lambda i, q=q: rnd(q(i)) if narrow else q(i)), "all_gather")
 
-            with rebind([(mod, "torch", FakeTorch()), (mod, "dist", Dist)]):
-                obj.update_params(tuple(dirs[b] for b in lsel))
+            from vlib import tensor as _vt
+            _vt.ROUND_NARROWING["on"] = True  # the communication buffer stores the rounded value
+            try:
+                with rebind([(mod, "torch", FakeTorch()), (mod, "dist", Dist)]):
+                    obj.update_params(tuple(dirs[b] for b in lsel))
+            finally:
+                _vt.ROUND_NARROWING["on"] = False
             return params, log
 
         paths = Explorer().run(fn)
